@@ -18,13 +18,12 @@ import (
 // depending on the custom logic.
 func Stream(w io.Writer, dir, relativePath string, writeFunc func(f os.FileInfo, shardRelativePath, fullPath string, tw *tar.Writer) error) error {
 	tw := tar.NewWriter(w)
-	defer tw.Close()
 
 	if writeFunc == nil {
 		writeFunc = StreamFile
 	}
 
-	return filepath.Walk(dir, func(path string, f os.FileInfo, err error) error {
+	err := filepath.Walk(dir, func(path string, f os.FileInfo, err error) error {
 		if err != nil {
 			return err
 		}
@@ -43,6 +42,13 @@ func Stream(w io.Writer, dir, relativePath string, writeFunc func(f os.FileInfo,
 
 		return writeFunc(f, filepath.Join(relativePath, subDir), path, tw)
 	})
+	if err != nil {
+		// The end-of-archive marker is written by Close. A walk that failed must not be
+		// followed by it: the reader would take the files streamed so far for the
+		// complete archive.
+		return err
+	}
+	return tw.Close()
 }
 
 // Generates a filtering function for Stream that checks an incoming file, and only writes the file to the stream if
